@@ -99,6 +99,7 @@ def run(ctx):
     index = ctx.index
     ctx.section(_tokens, ctx, index)
     ctx.section(_position, ctx, index)
+    ctx.section(_cut, ctx, index)
     ctx.explanation = (
         "Def-use shape of the three values returned by parse_docstring_into_header_args_footer: each must be "
         "a plain slice of the input string at boundaries produced by _get_token_start_idx / "
@@ -300,3 +301,61 @@ def _position(ctx, index):
                 "the loop is at — an earlier prose line equal to (or containing) a later title moves the split point".format(short(n, 60), n.func.value.id),
             )
     ctx.count("loops_over_split_pieces_in_docstring_code", n_loops)
+
+
+CUT_SCOPE = ("cdd.shared.docstring_utils", "cdd.shared.docstring_parsers", "cdd.docstring.", "cdd.shared.defaults_utils", "cdd.shared.pure_utils")
+
+
+def _cut(ctx, index, rule="C15.cut"):
+    """
+    `S[:-N]` keeps NOTHING when N is 0 (`S[:-0]` is `S[:0]`). In the docstring splitters / parsers a slice whose upper
+    bound is the negation of a run-time quantity must either cut an affix by its length (`len(...)` of the affix) or
+    be dominated by the fact that N is positive (`if N:`, `N > 0`, `N >= 1`); otherwise the input in which the measured
+    quantity is zero (no indentation, no trailing blanks) loses the whole text — for a header, every prose line.
+    """
+    from ..defuse import expand_aliases
+    from ..walker import GuardWalker
+
+    n_sites = 0
+    for g in index.nontest_funcs():
+        if not g.mod.name.startswith(CUT_SCOPE):
+            continue
+        sites = [
+            n
+            for n in iter_own(g.node)
+            if isinstance(n, ast.Subscript)
+            and isinstance(n.slice, ast.Slice)
+            and isinstance(n.slice.upper, ast.UnaryOp)
+            and isinstance(n.slice.upper.op, ast.USub)
+            and not isinstance(n.slice.upper.operand, ast.Constant)
+        ]
+        if not sites:
+            continue
+        facts_at = {}
+        GuardWalker(on_expr=lambda e, f: facts_at.__setitem__(id(e), dict(f))).walk_function(g.node)
+        for n in sites:
+            n_sites += 1
+            raw = n.slice.upper.operand
+            full = expand_aliases(g, raw)
+            why = None
+            if isinstance(full, ast.Call) and norm(full.func) == "len":
+                why = "cuts an affix by its length"
+            else:
+                txt = norm(raw)
+                for text, truth in (facts_at.get(id(n)) or {}).items():
+                    t = " ".join(text.split())
+                    if truth is True and t in (txt, txt + " > 0", txt + " >= 1", "0 < " + txt, txt + " != 0"):
+                        why = "dominated by `{}`".format(t)
+                    if truth is False and t in ("not " + txt, txt + " == 0", txt + " <= 0", txt + " < 1"):
+                        why = "dominated by `{}` being false".format(t)
+            ctx.ob(
+                rule,
+                g,
+                n,
+                why is not None,
+                ""
+                if why is not None
+                else "`{}` keeps nothing when `{}` is 0 (`S[:-0]` is `S[:0]`) and nothing on the way says it is positive: the input in "
+                "which the measured quantity is zero loses the whole text".format(short(n, 60), short(raw, 40)),
+            )
+    ctx.floor("slices cut from the end by a run-time quantity in the docstring splitters / parsers", n_sites, 2)
